@@ -58,6 +58,8 @@ def worker(args):
             from .gen import config as _gc
             if _gc.LAYOUT_COUNTS:
                 ctx.extra["snapshot_layouts"] = dict(_gc.LAYOUT_COUNTS)   # snapshots handed over per in-memory representation
+            if _gc.UNWRAP_COUNTS:
+                ctx.extra["unwrapped_coordinates"] = dict(_gc.UNWRAP_COUNTS)
             if _gc.BIG_COUNTS:
                 ctx.extra["systems_beyond_usual_size"] = {str(k): v for k, v in _gc.BIG_COUNTS.items()}
         except Exception:  # noqa: BLE001
